@@ -1,7 +1,8 @@
 """C10 — collecting errors changes reporting only, never the verdict or the value."""
 import random, warnings
 from decimal import Decimal
-from . import core, decl, gen, parsesuite, dc, dcsuite, dyn, findings
+from . import core, decl, gen, parsesuite, dc, dcsuite, dyn, findings, fieldgen
+import re
 
 PID = "C10"
 
@@ -108,6 +109,113 @@ def judge(case, out):
     return None
 
 
+# ---- the same on declarations with aliases, modes, defaults, dependencies (fieldgen) ----
+def declare_collect_pair(rng, small, feats=None):
+    """the same class twice: collect_errors=False and =True in its Options"""
+    for _ in range(30):
+        name, src, fields, okw = fieldgen.small_class(rng, feats) if small else fieldgen.rand_class(rng)
+        okw = {k: v for k, v in okw.items() if k not in ("collect_errors", "max_errors")}
+        names = []
+        try:
+            for collect in (False, True):
+                n2 = dyn.fresh("Cl")
+                kw = dict(okw, collect_errors=collect)
+                lines = [l for l in src.rstrip("\n").split("\n") if "__options__" not in l]
+                lines[0] = re.sub(r"class \w+\(", "class %s(" % n2, lines[0], 1)
+                lines.insert(1, "    __options__ = Options(%s)" % ", ".join("%s=%r" % kv for kv in kw.items()))
+                dyn.declare("\n".join(lines) + "\n")
+                names.append(n2)
+        except Exception:
+            continue
+        return names, src, fields, okw
+    raise RuntimeError("could not declare")
+
+
+def run_cls(clsname, data):
+    from utype.utils import exceptions as exc
+    warnings.simplefilter("ignore")
+    cls = dyn.get(clsname)
+    try:
+        r = cls.__from__(data)
+        return ("ok", dict(r) if isinstance(r, dict) else {k: v for k, v in r.__dict__.items() if not k.startswith("__")})
+    except exc.CollectedParseError as e:
+        return ("collected", [getattr(x, "item", None) for x in e.errors])
+    except exc.ParseError as e:
+        return ("parse", getattr(e, "item", None))
+    except Exception as e:
+        return ("other", type(e).__name__)
+
+
+def judge_fields(case):
+    ff, co = run_cls(case["names"][0], case["data"]), run_cls(case["names"][1], case["data"])
+    if ff[0] == "other" or co[0] == "other":
+        return "a non-ParseError escaped: %r / %r" % (ff, co)
+    if (ff[0] == "ok") != (co[0] == "ok"):
+        return "verdict differs: fail-fast %r, collecting %r" % (ff, co)
+    if ff[0] == "ok":
+        return None if repr(ff[1]) == repr(co[1]) else "value differs: fail-fast %r, collecting %r" % (ff[1], co[1])
+    if co[0] != "collected":
+        return "collecting mode did not raise one collected error: %r" % (co,)
+    items = co[1]
+    if ff[1] is not None and ff[1] not in items:
+        return "the item fail-fast stops at (%r) is not among the collected items %r" % (ff[1], items)
+    # no valid item is reported: with every other reported item repaired, the input must still fail
+    parser = dyn.get(case["names"][0]).__parser__
+    by_name = {f.name: f for f in parser.fields.values()}
+    meta = {m.get("alias", m["attname"]): m for m in case["fields"]}
+    for x in items:
+        if x is None:
+            continue
+        data = dict(case["data"])
+        for y in items:
+            if y is None or y == x:
+                continue
+            if y in by_name:
+                for k in list(data):
+                    f = parser.get_field(str(k))
+                    if f is not None and f.name == y:
+                        del data[k]
+                m = meta.get(y)
+                if m is not None:
+                    data[m["attname"]] = fieldgen.GOODV[m["type"]][0]
+            else:
+                data.pop(y, None)
+        r = run_cls(case["names"][0], data)
+        if r[0] == "ok":
+            return "a valid item is reported: %r among %r (with the other reported items repaired the input %r is accepted)" % (x, items, data)
+    return None
+
+
+def fields_suite(res, rng, tier):
+    ncls = 60 if tier == "quick" else 800
+    cases = []
+    for _ in range(ncls):
+        names, src, fields, okw = declare_collect_pair(rng, small=False)
+        for _ in range(8):
+            cases.append(dict(names=names, src=src, okw=okw, fields=fields, data=fieldgen.rand_input(rng, fields)))
+    pairs = fieldgen.feature_pairs()
+    rng.shuffle(pairs)
+    for feats in pairs * (1 if tier == "quick" else 6):
+        try:
+            names, src, fields, okw = declare_collect_pair(rng, small=True, feats=feats)
+        except RuntimeError:
+            continue
+        for data in fieldgen.state_inputs(rng, fields, limit=24):
+            cases.append(dict(names=names, src=src, okw=okw, fields=fields, data=data))
+    outs = core.pool_map(judge_fields, cases)
+    bad = [(c, o) for c, o in zip(cases, outs) if isinstance(o, str)]
+    res.add_suite("collect-fields", len(cases), len({repr((c["src"], c["okw"], c["data"])) for c in cases}),
+                  [dict(src=cases[0]["src"], data=repr(cases[0]["data"]))],
+                  "declarations over the Field parameters and class Options (aliases, case-insensitive names, modes, defaults, "
+                  "dependencies, on_error, addition policy), each declared with collect_errors False and True; judged: same verdict, "
+                  "same value, the item fail-fast stops at is collected, and every collected item still fails once all the other "
+                  "collected items are repaired (no valid item is reported)",
+                  dict(failures=len(bad)))
+    for c, o in bad[:3]:
+        res.violations.append(dict(case=repr(dict(src=c["src"], okw=c["okw"], data=c["data"], fields=c["fields"], kind="fields")),
+                                   observed=o, what=o))
+
+
 def main(tier, seed):
     warnings.simplefilter("ignore")
     res = core.Result(PID, tier, seed)
@@ -150,6 +258,7 @@ def main(tier, seed):
         res.violations.append(dict(case=repr(dict(src=c["src"], data=c["data"], max_errors=c["max_errors"], addition=c["addition"],
                                                     failing=c["failing"], extra=c["extra"])),
                                    observed=repr(o), what=msg))
+    fields_suite(res, rng, tier)
     return core.finish(res, "make -C coq Props/C10.vo && coqc (Print Assumptions audit)", "see suites", search=None,
                        level_note="C10_same_verdict_and_value is proved for every declared type of the parse calculus (simulation between the "
                                   "fail-fast and the collecting run, construct by construct, tied by induction on the fuel); for data-class field "
@@ -165,7 +274,20 @@ def replay(path):
         r = core.build(["Props/%s.vo" % PID])
         return 0 if r["ok"] else 1
     c = eval(d["case"], {"Decimal": Decimal})
-    import re
+    if c.get("kind") == "fields":
+        names = []
+        for collect in (False, True):
+            n2 = dyn.fresh("Rp")
+            kw = dict(c["okw"], collect_errors=collect)
+            lines = [l for l in c["src"].rstrip("\n").split("\n") if "__options__" not in l]
+            lines[0] = re.sub(r"class \w+\(", "class %s(" % n2, lines[0], 1)
+            lines.insert(1, "    __options__ = Options(%s)" % ", ".join("%s=%r" % kv for kv in kw.items()))
+            dyn.declare("\n".join(lines) + "\n")
+            names.append(n2)
+        msg = judge_fields(dict(c, names=names))
+        print("class:\n" + c["src"], c["okw"], "\ninput:", c["data"])
+        print("VIOLATED: " + msg if msg else "property holds on this case")
+        return 1 if msg else 0
     name = re.search(r"class (\w+)\(", c["src"]).group(1)
     dyn.declare(c["src"])
     c["cls"] = name
